@@ -20,11 +20,16 @@ def subs (key val : Obj) : Obj → Obj
     else if Obj.tuple (h :: args) == key then val else .tuple (h :: args)
   | .tuple [] => if Obj.tuple [] == key then val else .tuple []
   | .list xs => if Obj.list xs == key then val else .list (subsList key val xs)
+  | .dict kvs => if Obj.dict kvs == key then val else .dict (subsVals key val kvs)
   | o => if o == key then val else o
 /-- `[subs(x, key, val) for x in xs]` -/
 def subsList (key val : Obj) : List Obj → List Obj
   | [] => []
   | x :: xs => subs key val x :: subsList key val xs
+/-- `{k: subs(v, key, val) for k, v in d.items()}` -/
+def subsVals (key val : Obj) : List (Obj × Obj) → List (Obj × Obj)
+  | [] => []
+  | (k, v) :: rest => (k, subs key val v) :: subsVals key val rest
 /-- the `for arg in task[1:]` loop -/
 def subsArgs (key val : Obj) : List Obj → List Obj
   | [] => []
@@ -33,6 +38,7 @@ def subsArgs (key val : Obj) : List Obj → List Obj
      else if (Obj.tuple (h :: as)).hashable && Obj.tuple (h :: as) == key then val else .tuple (h :: as))
       :: subsArgs key val rest
   | .list xs :: rest => .list (subsList key val xs) :: subsArgs key val rest
+  | .dict kvs :: rest => .dict (subsVals key val kvs) :: subsArgs key val rest
   | a :: rest => (if a.hashable && a == key then val else a) :: subsArgs key val rest
 end
 
